@@ -403,6 +403,9 @@ class Verdict:
         return True
 
     def finish(self, level="model_checking", extra=None):
+        # one scenario whose re-runs disagree with its first run is ONE piece of noise, however many trace
+        # configurations it was validated under
+        self.unreproduced = sorted({u.split(":")[0]: u for u in self.unreproduced}.values())
         cov = dict(self.coverage)
         if extra:
             cov.update(extra)
